@@ -22,6 +22,11 @@ partial def parseExpr (colls : List Shape) : List Char → Option (Shape × List
   | 'r' :: cs => (parseNat cs).map fun (n, r) => (.rwlock n, r)
   | 'c' :: cs => (parseNat cs).bind fun (n, r) => (colls[n]?).map fun s => (s, r)
   | 'V' :: '(' :: cs => parseList colls cs [] |>.map fun (ss, r) => (.seq ss, r)
+  | 'B' :: '!' :: cs => parseExpr colls ('B' :: cs)     -- built with `new` (same shape)
+  | 'B' :: '&' :: cs => parseExpr colls ('B' :: cs)     -- built with `new_ref`
+  | 'F' :: '!' :: cs => parseExpr colls ('F' :: cs)
+  | 'T' :: '!' :: cs => parseExpr colls ('T' :: cs)
+  | 'T' :: '&' :: cs => parseExpr colls ('T' :: cs)
   | 'B' :: '(' :: cs => (parseExpr colls cs).bind fun (s, r) => match r with | ')' :: r' => some (.boxed s, r') | _ => none
   | 'F' :: '(' :: cs => (parseExpr colls cs).bind fun (s, r) => match r with | ')' :: r' => some (.refc s, r') | _ => none
   | 'T' :: '(' :: cs => (parseExpr colls cs).bind fun (s, r) => match r with | ')' :: r' => some (.retry s, r') | _ => none
